@@ -342,6 +342,7 @@ Record wfP (u : url) : Prop := mkWfP {
   wf_path_abs : is_nil (path u) || first_is c_slash (path u) = true;
   wf_rawpath : rawpath u = canon_rawpath (path u);
   wf_query_chars : forallb query_char (query u) = true;
+  wf_qcond : qcond (query u) = true;
   wf_forceq : forceq u = true -> query u = [] }.
 
 Lemma wf_url_P u : wf_url u = true <-> wfP u.
@@ -353,7 +354,7 @@ Proof.
     + now apply is_nil_false_iff, negb_true_iff.
     + now apply str_eqb_eq.
     + intros E. rewrite E in *. cbn [negb orb] in *. destruct (query u); [reflexivity|discriminate].
-  - intros [H1 H2 H3 H4 H5 H6 H7 H8 H9 H10].
+  - intros [H1 H2 H3 H4 H5 H6 H7 H8 H9 H9q H10].
     repeat (apply andb_true_iff; split); try assumption.
     + destruct H1 as [-> | ->]; reflexivity.
     + now apply negb_true_iff, is_nil_false_iff.
@@ -465,7 +466,7 @@ Definition app_tail (u : url) (t : str) : url :=
   else mkUrl (scheme u) (user u) (host u) (path u ++ t) (canon_rawpath (path u ++ t)) false [].
 
 Definition tail_ok (u : url) (t : str) : bool :=
-  if hasq u then forallb query_char t
+  if hasq u then forallb query_char t && qcond (query u ++ t)
   else forallb path_char t && (negb (is_nil (path u)) || first_is c_slash t).
 
 Lemma first_is_app c a b : a <> [] -> first_is c (a ++ b) = first_is c a.
@@ -474,8 +475,10 @@ Proof. destruct a; [contradiction|reflexivity]. Qed.
 Lemma app_tail_wf u t : wfP u -> t <> [] -> tail_ok u t = true -> wfP (app_tail u t).
 Proof.
   intros W Ht Hok. unfold app_tail, tail_ok in *. destruct (hasq u) eqn:Hq.
-  - constructor; cbn; try apply W.
-    + rewrite forallb_app, (wf_query_chars u W), Hok. reflexivity.
+  - apply andb_true_iff in Hok as [Hc Hqc].
+    constructor; cbn; try apply W.
+    + rewrite forallb_app, (wf_query_chars u W), Hc. reflexivity.
+    + exact Hqc.
     + discriminate.
   - apply andb_true_iff in Hok as [Hc Hs].
     constructor; cbn; try apply W.
@@ -485,7 +488,15 @@ Proof.
       * cbn [app is_nil first_is orb] in *. exact Hp.
     + reflexivity.
     + reflexivity.
+    + reflexivity.
     + discriminate.
+Qed.
+
+Lemma qcond_app_plain q t :
+  qcond q = true -> existsb is_pct t = false -> notin c_colon t = true -> qcond (q ++ t) = true.
+Proof.
+  unfold qcond, notin. intros Hq Hp Hc. rewrite existsb_app, forallb_app, Hp, Hc, orb_false_r, andb_true_r.
+  exact Hq.
 Qed.
 
 Lemma print_app_tail u t : wfP u -> t <> [] -> tail_ok u t = true ->
@@ -635,16 +646,39 @@ Proof.
   destruct (query u); [reflexivity|discriminate].
 Qed.
 
-Lemma tail_ok_slash u : path u <> [] -> tail_ok u [c_slash] = true.
+Lemma tail_ok_slash u : wfP u -> path u <> [] -> tail_ok u [c_slash] = true.
 Proof.
-  intros Hp. unfold tail_ok. destruct (hasq u); [reflexivity|].
-  apply is_nil_false_iff in Hp. rewrite Hp. reflexivity.
+  intros W Hp. unfold tail_ok. destruct (hasq u).
+  - cbn [forallb]. change (query_char c_slash) with true. cbn [andb].
+    apply qcond_app_plain; [apply W|reflexivity|reflexivity].
+  - apply is_nil_false_iff in Hp. rewrite Hp. reflexivity.
 Qed.
 
-Lemma tail_ok_control u i : path u <> [] -> tail_ok u (control_of i) = true.
+Lemma digit_not_pct c : is_digit c = true -> is_pct c = false.
+Proof. intros H. unfold is_pct. char_ne H c 37. Qed.
+Lemma digit_not_colon c : is_digit c = true -> negb (c =? c_colon) = true.
+Proof. intros H. change c_colon with 58. apply negb_true_iff. char_ne H c 58. Qed.
+
+Lemma control_no_pct i : existsb is_pct (control_of i) = false.
 Proof.
-  intros Hp. unfold tail_ok. destruct (hasq u).
-  - apply (forallb_imp path_char); [exact path_query_char|apply control_path_chars].
+  unfold control_of. rewrite existsb_app. change (existsb is_pct s_trackid) with false. cbn [orb].
+  pose proof (dec_digits i) as H. induction (dec i) as [|c l IH]; [reflexivity|].
+  cbn [forallb existsb] in *. apply andb_true_iff in H as [H1 H2].
+  rewrite (digit_not_pct c H1). cbn [orb]. auto.
+Qed.
+
+Lemma control_no_colon i : notin c_colon (control_of i) = true.
+Proof.
+  unfold control_of. rewrite notin_app. change (notin c_colon s_trackid) with true. cbn [andb].
+  apply (forallb_imp is_digit); [exact digit_not_colon|apply dec_digits].
+Qed.
+
+Lemma tail_ok_control u i : wfP u -> path u <> [] -> tail_ok u (control_of i) = true.
+Proof.
+  intros W Hp. unfold tail_ok. destruct (hasq u).
+  - apply andb_true_iff. split.
+    + apply (forallb_imp path_char); [exact path_query_char|apply control_path_chars].
+    + apply qcond_app_plain; [apply W|apply control_no_pct|apply control_no_colon].
   - rewrite control_path_chars. apply is_nil_false_iff in Hp. rewrite Hp. reflexivity.
 Qed.
 
@@ -666,14 +700,14 @@ Qed.
 Lemma setup_url_wf u i : wfP u -> path u <> [] -> wfP (setup_url u i).
 Proof.
   intros W Hp. apply app_tail_wf; [now apply base_wf|apply control_nonnil|].
-  apply tail_ok_control. now apply base_path_nonnil.
+  apply tail_ok_control; [now apply base_wf|now apply base_path_nonnil].
 Qed.
 
 Lemma print_setup_url u i : wfP u -> path u <> [] ->
   print (setup_url u i) = (print u ++ [c_slash]) ++ control_of i.
 Proof.
   intros W Hp. unfold setup_url.
-  rewrite <- print_app_tail; [|now apply base_wf|apply control_nonnil|apply tail_ok_control; now apply base_path_nonnil].
+  rewrite <- print_app_tail; [|now apply base_wf|apply control_nonnil|apply tail_ok_control; [now apply base_wf|now apply base_path_nonnil]].
   rewrite <- print_app_tail; [reflexivity|exact W|discriminate|now apply tail_ok_slash].
 Qed.
 
@@ -749,101 +783,40 @@ Proof.
   eexists. eexists. reflexivity.
 Qed.
 
-(* ---------- record: media lookup by URL ---------- *)
-Lemma print_simple sc ho pa fq qu :
-  ho <> [] -> is_nil pa || first_is c_slash pa = true -> existsb is_special pa = false ->
-  print (mkUrl sc None ho pa [] fq qu)
-  = sc ++ c_colon :: c_slash :: c_slash :: ho ++ pa ++ (if fq || negb (is_nil qu) then c_qm :: qu else []).
-Proof.
-  intros Hh Hp Hs. unfold print, escaped_path. cbn [scheme user host path rawpath forceq query is_nil negb andb].
-  rewrite (escape_path_id pa Hs).
-  apply is_nil_false_iff in Hh. rewrite Hh. cbn [negb orb app].
-  destruct (is_nil pa) eqn:E; cbn [negb andb orb] in *; [reflexivity|]. rewrite Hp. reflexivity.
-Qed.
-
-Lemma existsb_special_app a b : existsb is_special (a ++ b) = existsb is_special a || existsb is_special b.
-Proof. apply existsb_app. Qed.
-
+(* ---------- record: media lookup by URL (as repaired by d1622fe) ---------- *)
 Lemma control_inj k i : control_of k = control_of i -> k = i.
 Proof. unfold control_of. intros H. apply app_inv_head in H. now apply dec_inj. Qed.
 
-Lemma first_is_slash_app pa t : is_nil pa || first_is c_slash pa = true -> pa <> [] ->
-  is_nil (pa ++ t) || first_is c_slash (pa ++ t) = true.
-Proof.
-  intros H Hp. destruct pa as [|c p]; [contradiction|]. cbn [app is_nil first_is orb] in *. exact H.
-Qed.
-
-Lemma app_tail_sh u t :
-  scheme (app_tail u t) = scheme u /\ host (app_tail u t) = host u /\ user (app_tail u t) = user u.
-Proof. unfold app_tail. destruct (hasq u); auto. Qed.
-
-Lemma strip_setup_url_noq u i :
-  hasq u = false -> existsb is_special (path u) = false ->
-  strip_cred (setup_url u i) = mkUrl (scheme u) None (host u) (path u ++ c_slash :: control_of i) [] false [].
-Proof.
-  intros Hq Hsp. unfold setup_url.
-  assert (Hq' : hasq (app_tail u [c_slash]) = false) by (rewrite hasq_app_tail; [exact Hq|discriminate]).
-  unfold app_tail at 1. rewrite Hq'. unfold app_tail. rewrite Hq.
-  unfold strip_cred. cbn [scheme user host path rawpath forceq query].
-  rewrite <- app_assoc. cbn [app]. unfold canon_rawpath.
-  rewrite existsb_app, Hsp. cbn [existsb orb]. change (is_special c_slash) with false. cbn [orb].
-  now rewrite control_no_special.
-Qed.
-
-Lemma strip_setup_url_q u i :
-  hasq u = true -> rawpath u = [] ->
-  strip_cred (setup_url u i) = mkUrl (scheme u) None (host u) (path u) [] false (query u ++ c_slash :: control_of i).
-Proof.
-  intros Hq Hrp. unfold setup_url.
-  assert (Hq' : hasq (app_tail u [c_slash]) = true) by (rewrite hasq_app_tail; [exact Hq|discriminate]).
-  unfold app_tail at 1. rewrite Hq'. unfold app_tail. rewrite Hq.
-  unfold strip_cred. cbn [scheme user host path rawpath forceq query].
-  rewrite Hrp. rewrite <- app_assoc. reflexivity.
-Qed.
-
 Lemma url_hit_control u i k :
-  wfP u -> in_scope u -> forceq u = false -> existsb is_special (path u) = false ->
+  wfP u -> in_scope u ->
   url_hit (control_of k) (path u) (query u) (strip_cred (setup_url u i)) = (k =? i).
 Proof.
-  intros W [Hp [Hlp Hlq]] Hf Hsp. unfold url_hit. rewrite control_not_abs.
-  pose proof (wf_host_nonnil u W) as Hh. pose proof (wf_path_abs u W) as Hpa.
-  assert (Hrp : rawpath u = []) by (rewrite (wf_rawpath u W); unfold canon_rawpath; now rewrite Hsp).
-  cbn [scheme host strip_cred].
-  assert (Hsch : scheme (setup_url u i) = scheme u /\ host (setup_url u i) = host u).
-  { unfold setup_url. destruct (app_tail_sh (app_tail u [c_slash]) (control_of i)) as [-> [-> _]].
-    destruct (app_tail_sh u [c_slash]) as [-> [-> _]]. auto. }
-  destruct Hsch as [-> ->].
-  assert (Hpathk : forall j, is_nil (path u ++ c_slash :: control_of j) || first_is c_slash (path u ++ c_slash :: control_of j) = true)
-    by (intros j; now apply first_is_slash_app).
-  assert (Hspk : forall j, existsb is_special (path u ++ c_slash :: control_of j) = false).
-  { intros j. rewrite existsb_special_app, Hsp. cbn [existsb orb]. change (is_special c_slash) with false.
-    cbn [orb]. apply control_no_special. }
-  destruct (query u) as [|q0 q] eqn:Eq.
-  - (* no query: the control goes behind the path *)
-    cbn [is_nil negb].
-    assert (Hq : hasq u = false) by (unfold hasq; now rewrite Hf, Eq).
-    rewrite (strip_setup_url_noq u i Hq Hsp).
-    rewrite !print_simple by auto. cbn [orb is_nil negb]. rewrite !app_nil_r.
-    rewrite orb_diag.
-    destruct (N.eqb_spec k i) as [->|Hne]; [apply str_eqb_refl|].
-    apply str_eqb_neq. intros E. apply app_inv_head in E.
-    injection E as E. apply app_inv_head in E. apply app_inv_head in E. injection E as E.
-    (first [apply control_inj in E | apply dec_inj in E]); contradiction.
-  - (* a query: the control goes behind the query *)
-    cbn [is_nil negb].
-    assert (Hq : hasq u = true) by (unfold hasq; rewrite Eq; apply orb_true_r).
-    rewrite (strip_setup_url_q u i Hq Hrp). rewrite Eq.
-    rewrite !print_simple by auto. cbn [orb is_nil negb app].
-    assert (H2 : str_eqb
-      (scheme u ++ c_colon :: c_slash :: c_slash :: host u ++ (path u ++ c_slash :: control_of k) ++ c_qm :: q0 :: q)
-      (scheme u ++ c_colon :: c_slash :: c_slash :: host u ++ path u ++ c_qm :: q0 :: q ++ c_slash :: control_of i) = false).
-    { apply str_eqb_neq. intros E. apply app_inv_head in E. injection E as E.
-      apply app_inv_head in E. rewrite <- app_assoc in E. apply app_inv_head in E. discriminate. }
-    rewrite H2, orb_false_r.
+  intros W [Hp [Hlp Hlq]]. unfold url_hit. rewrite control_not_abs.
+  change (path (strip_cred (setup_url u i))) with (path (setup_url u i)).
+  change (query (strip_cred (setup_url u i))) with (query (setup_url u i)).
+  unfold setup_url.
+  assert (Hs : hasq (app_tail u [c_slash]) = hasq u) by (apply hasq_app_tail; discriminate).
+  destruct (hasq u) eqn:Hq.
+  - destruct (app_tail_fields_q (app_tail u [c_slash]) (control_of i) Hs) as [-> ->].
+    destruct (app_tail_fields_q u [c_slash] Hq) as [-> ->].
+    rewrite str_eqb_refl. cbn [andb]. rewrite <- app_assoc. cbn [app].
+    assert (H2 : str_eqb (path u) (path u ++ c_slash :: control_of k) = false).
+    { apply str_eqb_neq. intros E. rewrite <- (app_nil_r (path u)) in E at 1.
+      apply app_inv_head in E. discriminate. }
+    rewrite H2. cbn [andb]. rewrite orb_false_r.
     destruct (N.eqb_spec k i) as [->|Hne]; [apply str_eqb_refl|].
     apply str_eqb_neq. intros E. apply app_inv_head in E. injection E as E.
-    apply app_inv_head in E. apply app_inv_head in E. injection E as E.
-    apply app_inv_head in E. injection E as E. (first [apply control_inj in E | apply dec_inj in E]); contradiction.
+    (first [apply control_inj in E | apply dec_inj in E]); congruence.
+  - destruct (app_tail_fields_p (app_tail u [c_slash]) (control_of i) Hs) as [-> [-> _]].
+    destruct (app_tail_fields_p u [c_slash] Hq) as [-> [_ Hqe]]. rewrite Hqe.
+    rewrite <- app_assoc. cbn [app].
+    assert (H1 : str_eqb (path u ++ c_slash :: control_of i) (path u) = false).
+    { apply str_eqb_neq. intros E. rewrite <- (app_nil_r (path u)) in E at 2.
+      apply app_inv_head in E. discriminate. }
+    rewrite H1. cbn [andb orb]. rewrite andb_true_r.
+    destruct (N.eqb_spec k i) as [->|Hne]; [apply str_eqb_refl|].
+    apply str_eqb_neq. intros E. apply app_inv_head in E. injection E as E.
+    (first [apply control_inj in E | apply dec_inj in E]); congruence.
 Qed.
 
 Lemma find_from_hit pa q s i fuel : forall k0,
@@ -867,13 +840,13 @@ Proof.
     exact Hlp.
 Qed.
 
+(* no hypothesis on "?" with an empty query or on RawPath characters any more *)
 Theorem record_inverse u n i :
-  wfP u -> in_scope u -> forceq u = false -> existsb is_special (path u) = false ->
-  i < N.of_nat n ->
+  wfP u -> in_scope u -> i < N.of_nat n ->
   exists sw,
     record_flow u n i = FOk (mkRecObs (path u, query u) sw (MFound i) (path u, query u)).
 Proof.
-  intros W Hsc Hf Hsp Hi. pose proof Hsc as [Hp [Hlp Hlq]]. unfold record_flow.
+  intros W Hsc Hi. pose proof Hsc as [Hp [Hlp Hlq]]. unfold record_flow.
   rewrite (server_sees_wf u W). cbn [path query strip_cred].
   rewrite gpq_announce.
   rewrite (media_url_relative (control_of i) u 116 (tl (control_of i))); try reflexivity; try discriminate.
@@ -890,14 +863,43 @@ Proof.
 Qed.
 
 (* ---------- control styles ---------- *)
-Lemma tail_ok_path_chars u t :
-  forallb path_char t = true -> (path u <> [] \/ first_is c_slash t = true) -> tail_ok u t = true.
+Lemma path_char_not_pct c : path_char c = true -> is_pct c = false.
+Proof. intros H. unfold is_pct. char_ne H c 37. Qed.
+
+Lemma path_chars_no_pct t : forallb path_char t = true -> existsb is_pct t = false.
 Proof.
-  intros Hc Hp. unfold tail_ok. destruct (hasq u).
-  - now apply (forallb_imp path_char); [exact path_query_char|].
+  induction t as [|c t IH]; cbn [forallb existsb]; [reflexivity|].
+  intros H. apply andb_true_iff in H as [H1 H2]. now rewrite (path_char_not_pct c H1), IH.
+Qed.
+
+(* the fidelity condition survives a tail of path characters when the query holds no '%' or the tail no ':' *)
+Definition colon_safe (q t : str) : Prop := existsb is_pct q = false \/ notin c_colon t = true.
+
+Lemma qcond_app_pathchars q t :
+  qcond q = true -> forallb path_char t = true -> colon_safe q t -> qcond (q ++ t) = true.
+Proof.
+  intros Hq Hc [Hs|Hs].
+  - unfold qcond. rewrite existsb_app, Hs, (path_chars_no_pct t Hc). reflexivity.
+  - apply qcond_app_plain; [exact Hq|now apply path_chars_no_pct|exact Hs].
+Qed.
+
+Lemma tail_ok_path_chars u t :
+  wfP u -> forallb path_char t = true -> (path u <> [] \/ first_is c_slash t = true) ->
+  colon_safe (query u) t -> tail_ok u t = true.
+Proof.
+  intros W Hc Hp Hs. unfold tail_ok. destruct (hasq u).
+  - apply andb_true_iff. split.
+    + now apply (forallb_imp path_char); [exact path_query_char|].
+    + apply qcond_app_pathchars; [apply W|exact Hc|exact Hs].
   - rewrite Hc. destruct Hp as [Hp|Hp].
     + apply is_nil_false_iff in Hp. now rewrite Hp.
     + rewrite Hp. apply orb_true_r.
+Qed.
+
+Lemma colon_safe_base u t : colon_safe (query u) t -> colon_safe (query (app_tail u [c_slash])) t.
+Proof.
+  intros [H|H]; [left|now right]. unfold app_tail. destruct (hasq u); cbn [query]; [|reflexivity].
+  rewrite existsb_app, H. reflexivity.
 Qed.
 
 (* relative control (does not start with '?' or '/'): appended behind the query if the base URL has
@@ -905,12 +907,12 @@ Qed.
 Theorem control_relative base ctl c0 rest :
   wfP base -> path base <> [] ->
   ctl = c0 :: rest -> c0 <> c_qm -> c0 <> c_slash -> is_abs_control ctl = false ->
-  forallb path_char ctl = true ->
+  forallb path_char ctl = true -> colon_safe (query base) ctl ->
   let b' := if last_is c_slash (print base) then base else app_tail base [c_slash] in
   media_url ctl base = UOk (app_tail b' ctl) /\
   print (app_tail b' ctl) = print base ++ (if last_is c_slash (print base) then [] else [c_slash]) ++ ctl.
 Proof.
-  intros W Hp Hc Hq Hs Habs Hch b'.
+  intros W Hp Hc Hq Hs Habs Hch Hcs b'.
   rewrite (media_url_relative ctl base c0 rest Hc Habs Hq Hs).
   assert (Hne : ctl <> []) by (rewrite Hc; discriminate).
   subst b'. destruct (last_is c_slash (print base)).
@@ -918,7 +920,7 @@ Proof.
     split; [reflexivity|]. cbn [app]. symmetry. apply print_app_tail; [exact W|exact Hne|apply tail_ok_path_chars; auto].
   - pose proof (base_wf base W Hp) as Wb.
     assert (Hok : tail_ok (app_tail base [c_slash]) ctl = true)
-      by (apply tail_ok_path_chars; [exact Hch|left; now apply base_path_nonnil]).
+      by (apply tail_ok_path_chars; [exact Wb|exact Hch|left; now apply base_path_nonnil|now apply colon_safe_base]).
     rewrite (print_app_tail base [c_slash]); [|exact W|discriminate|now apply tail_ok_slash].
     rewrite parse_print_tail by assumption. split; [reflexivity|].
     rewrite <- print_app_tail by assumption.
@@ -928,12 +930,12 @@ Qed.
 
 (* control starting with '/': appended as is (no RFC 3986 root resolution) *)
 Theorem control_leading_slash base rest :
-  wfP base -> forallb path_char (c_slash :: rest) = true ->
+  wfP base -> forallb path_char (c_slash :: rest) = true -> colon_safe (query base) (c_slash :: rest) ->
   media_url (c_slash :: rest) base = UOk (app_tail base (c_slash :: rest)) /\
   print (app_tail base (c_slash :: rest)) = print base ++ c_slash :: rest.
 Proof.
-  intros W Hch.
-  assert (Hok : tail_ok base (c_slash :: rest) = true) by (apply tail_ok_path_chars; [exact Hch|now right]).
+  intros W Hch Hcs.
+  assert (Hok : tail_ok base (c_slash :: rest) = true) by (apply tail_ok_path_chars; [exact W|exact Hch|now right|exact Hcs]).
   unfold media_url. change (is_abs_control (c_slash :: rest)) with false. cbn iota.
   change (c_slash =? c_qm) with false. rewrite N.eqb_refl. cbn [negb andb].
   rewrite parse_print_tail; [|exact W|discriminate|exact Hok].
@@ -942,15 +944,15 @@ Qed.
 
 (* control starting with '?' on a base URL without query: becomes the query *)
 Theorem control_query_style base q' :
-  wfP base -> hasq base = false -> forallb query_char q' = true ->
+  wfP base -> hasq base = false -> forallb query_char q' = true -> qcond q' = true ->
   media_url (c_qm :: q') base =
   UOk (mkUrl (scheme base) (user base) (host base) (path base) (rawpath base) (is_nil q') q').
 Proof.
-  intros W Hq Hch. unfold media_url. change (is_abs_control (c_qm :: q')) with false. cbn iota.
+  intros W Hq Hch Hqc. unfold media_url. change (is_abs_control (c_qm :: q')) with false. cbn iota.
   rewrite N.eqb_refl. cbn [negb andb].
   set (r := mkUrl (scheme base) (user base) (host base) (path base) (rawpath base) (is_nil q') q').
   assert (Wr : wfP r).
-  { constructor; cbn; try apply W; [exact Hch|]. destruct q'; [reflexivity|discriminate]. }
+  { constructor; cbn; try apply W; [exact Hch|exact Hqc|]. destruct q'; [reflexivity|discriminate]. }
   assert (Hpr : print base ++ c_qm :: q' = print r).
   { rewrite (print_wf base W), (print_wf r Wr). unfold qpart, userpart. rewrite Hq.
     assert (Hr : hasq r = true) by (unfold hasq; cbn; now destruct q').
@@ -986,7 +988,28 @@ Proof.
   unfold request_line, wire. rewrite (print_wf _ (strip_cred_wf u W)). reflexivity.
 Qed.
 
-(* ---------- where the property is false of the code (witnesses) ---------- *)
+(* ---------- regression: the media lookup BEFORE fix commit d1622fe ---------- *)
+Definition url_hit_old (c pa q : str) (u : url) : bool :=
+  let us := print u in
+  if is_abs_control c then str_eqb c us else
+  let u1 := if negb (is_nil q)
+            then mkUrl (scheme u) None (host u) pa [] false (q ++ c_slash :: c)
+            else mkUrl (scheme u) None (host u) (pa ++ c_slash :: c) [] false q in
+  let u2 := mkUrl (scheme u) None (host u) (pa ++ c_slash :: c) [] false q in
+  str_eqb (print u1) us || str_eqb (print u2) us.
+
+Fixpoint find_media_by_url_old_from (k : N) (controls : list str) (pa q : str) (u : url) : mres :=
+  match controls with
+  | [] => MNil
+  | c :: rest => if url_hit_old c pa q u then MFound k else find_media_by_url_old_from (k + 1) rest pa q u
+  end.
+
+(* what the old lookup made of the SETUP URL the client builds for announced media i *)
+Definition old_lookup (u : url) (n : nat) (i : N) : mres :=
+  find_media_by_url_old_from 0 (controls_upto n 0) (path u) (query u) (strip_cred (setup_url u i)).
+Definition new_lookup (u : url) (n : nat) (i : N) : mres :=
+  find_media_by_url (controls_upto n 0) (path u) (query u) (strip_cred (setup_url u i)).
+
 Definition u_rawpath : url :=   (* rtsp://h/te!st *)
   mkUrl s_rtsp None [104] [47;116;101;33;115;116] [47;116;101;33;115;116] false [].
 Definition u_forcequery : url := (* rtsp://h/p? *)
@@ -1000,23 +1023,11 @@ Proof.
   apply negb_true_iff in H1, H2, H3. repeat split; try assumption. now apply is_nil_false_iff.
 Qed.
 
-(* a path that net/url keeps in RawPath (here '!'): the SETUP of a recording client finds no media *)
-Theorem record_rawpath_refuted :
-  exists u, wfP u /\ in_scope u /\ forceq u = false /\
-    exists o, record_flow u 2 1 = FOk o /\ ro_announce o = (path u, query u) /\ ro_media o = MNil.
-Proof.
-  exists u_rawpath. split; [now apply wf_url_P|]. split; [now apply in_scope_dec|]. split; [reflexivity|].
-  eexists. split; [vm_compute; reflexivity|]. split; reflexivity.
-Qed.
-
-(* "?" with an empty query: same *)
-Theorem record_forcequery_refuted :
-  exists u, wfP u /\ in_scope u /\ existsb is_special (path u) = false /\
-    exists o, record_flow u 2 1 = FOk o /\ ro_announce o = (path u, query u) /\ ro_media o = MNil.
-Proof.
-  exists u_forcequery. split; [now apply wf_url_P|]. split; [now apply in_scope_dec|]. split; [reflexivity|].
-  eexists. split; [vm_compute; reflexivity|]. split; reflexivity.
-Qed.
+Lemma old_lookup_regression :
+  wf_url u_rawpath = true /\ wf_url u_forcequery = true /\
+  old_lookup u_rawpath 2 1 = MNil /\ new_lookup u_rawpath 2 1 = MFound 1 /\
+  old_lookup u_forcequery 2 1 = MNil /\ new_lookup u_forcequery 2 1 = MFound 1.
+Proof. vm_compute. repeat split; reflexivity. Qed.
 
 (* ---------- helpers for the Examples of Props_C20.v ---------- *)
 From Coq Require Import String Ascii.
